@@ -43,6 +43,11 @@ def run(check: Check):
     ff = FuncFlow.of(repo, fi)
     if len(fi.positional_params) > 1:
       roundcheck.check_no_client_filter(check, repo, fi, fi.positional_params[1])
+      for _, rv in ff.returns():
+        if isinstance(rv, ast.Tuple) and rv.elts and ff.param_of(rv.elts[0]) == fi.positional_params[0]:
+          check.ob('R-ORDER.update', fi, 'return ' + txt(rv)[:60], False,
+                   'apply returns the server state it was given: the server update is skipped on this path (a stateful server optimizer '
+                   'must still take its step on a zero update)', node=rv, exact=True)
     sites = [(fi, c) for c in roundcheck.inv_calls(ff)]
     # helper functions called from apply (hyp_cluster.expectation_step)
     for _, c in ff.calls():
